@@ -1,3 +1,4 @@
+import L21.Proofs.GdsBytes
 import L21.Props.C01
 import L21.Props.C15
 #print axioms L21.Gds.c01_reader_accepts_writer_rows
@@ -8,3 +9,5 @@ import L21.Props.C15
 #print axioms L21.Gds.c01_total
 #print axioms L21.GdsFloat.c15_decode_encode
 #print axioms L21.Gds.c01_tree_roundtrip
+#print axioms L21.Gds.c01_roundtrip
+#print axioms L21.Gds.readRecord_encRecord
